@@ -154,6 +154,12 @@ class AbstractDataset:
     def trimmed_after_convolution_from(self, kernel_shape) -> "AbstractDataset":
         dataset = copy.copy(self)
 
+        # Cached quantities (grids, convolver, w_tilde, ...) describe the untrimmed data and must not be carried over.
+
+        for key in list(dataset.__dict__):
+            if isinstance(getattr(type(dataset), key, None), cached_property):
+                del dataset.__dict__[key]
+
         dataset.data = dataset.data.trimmed_after_convolution_from(
             kernel_shape=kernel_shape
         )
